@@ -120,6 +120,9 @@ func BuildPattern(cache *ChunkCache, patternCache map[string]*Pattern, fuzzy boo
 		if !caseSensitive {
 			asString = lowerString
 		}
+		// There is nothing to rank by when the query is empty. It is still
+		// evaluated when items are excluded.
+		sortable = len(asString) > 0
 		if normalize {
 			// The matchers expect a normalized pattern
 			asString = string(algo.NormalizeRunes([]rune(asString)))
